@@ -1,9 +1,19 @@
 (* C08 — generated Validate() and strict decoding reject exactly what the schema forbids.
    Statements only.  Models: Model/GoSemValidate.v (struct_validation_method.tmpl), Model/GoSemStrict.v
    (struct.strict.json_unmarshal.tmpl and the two disjunction variants); specifications:
-   Model/GoSemSpec08.v (`violations`, `strict_ok`), Model/GoSemSpec01.v (`roundtrip_safe`). *)
+   Model/GoSemSpec08.v (`violations`: every constraint, at any depth, through any reference;
+   `strict_ok`: the property's four conditions, recursively), Model/GoSemSpec01.v (`roundtrip_safe`).
+   Every full statement the faithful model refutes is kept, with its refutation (the witness is a
+   defect of the generated code or a corner of the model named in the comment) and the proved partial
+   version under explicit boolean side conditions:
+     ctx_alias_free ctx    no constraint is reachable from an object that is not a struct   (Model/GoSemSpec08.v)
+     ctx_cdirect ctx       every constant reference names an enum object directly          (Model/GoSemSpec08F.v)
+     ctx_named ctx         no struct field is named ""                                      (Model/GoSemSpec08F.v)
+     ctx_unions_flat ctx   array / map branches of a union of scalars hold scalars          (Model/GoSemSpec08F.v)
+     roundtrip_safe        the document avoids the three strict-decoder defects             (Model/GoSemSpec01.v)
+     is_unmodelled _ = false   the model has an answer (inline struct fields have no template case). *)
 From Coq Require Import List String ZArith Bool.
-From Cog Require Import Model.GoSem Model.GoSemSpec08 Model.GoSemSpec01 Proofs.GoSemC08Proofs.
+From Cog Require Import Model.GoSem Model.GoSemSpec08 Model.GoSemSpec08F Model.GoSemSpec01 Proofs.GoSemC08Proofs.
 Import ListNotations.
 Local Open Scope string_scope.
 
@@ -11,11 +21,18 @@ Local Open Scope string_scope.
 Definition typed_obj (ctx : schemas) (p n : string) (v : gval) : Prop :=
   ctx_supported ctx = true /\ struct_object ctx p n = true /\ wt ctx (TRef attrs0 p n) v = true.
 
-(* ---- Validate(): every reported path is the path of a violated constraint (holds in full) ---- *)
-Theorem validate_reports_only_violations : forall ctx p n v q, typed_obj ctx p n v ->
+(* ---- Validate(): every reported path is the path of a violated constraint ---- *)
+Definition validate_reports_only_violations_statement : Prop :=
+  forall ctx p n v q, typed_obj ctx p n v ->
+    In q (validate_object ctx p n v) -> In q (violations_object ctx p n v).
+(* refuted only by a field named "": MakeBuildErrors("", err) prints ".n" where the field path is "n" *)
+Theorem validate_reports_only_violations_refuted : ~ validate_reports_only_violations_statement.
+Proof. exact GoSemC08Proofs.validate_reports_only_violations_refuted. Qed.
+Print Assumptions validate_reports_only_violations_refuted.
+Theorem validate_reports_only_violations_partial : forall ctx p n v q, typed_obj ctx p n v -> ctx_named ctx = true ->
   In q (validate_object ctx p n v) -> In q (violations_object ctx p n v).
-Proof. exact GoSemC08Proofs.validate_reports_only_violations. Qed.
-Print Assumptions validate_reports_only_violations.
+Proof. exact GoSemC08Proofs.validate_reports_only_violations_weak. Qed.
+Print Assumptions validate_reports_only_violations_partial.
 
 (* ---- Validate() returns an error iff a constraint is violated ---- *)
 Definition validate_iff_statement : Prop :=
@@ -25,10 +42,12 @@ Definition validate_iff_statement : Prop :=
 Theorem validate_iff_refuted : ~ validate_iff_statement.
 Proof. exact GoSemC08Proofs.validate_iff_refuted. Qed.
 Print Assumptions validate_iff_refuted.
-(* when no constraint sits behind a non-struct object, Validate reports exactly the violations, with their paths *)
-Theorem validate_iff_partial : forall ctx p n v, typed_obj ctx p n v -> ctx_alias_free ctx = true ->
+(* when nothing constrained sits behind a non-struct object, Validate reports EXACTLY the violations, with
+   their paths, at any depth (arrays, maps, pointers, referenced and union-branch structs) *)
+Theorem validate_iff_partial : forall ctx p n v, typed_obj ctx p n v ->
+  ctx_alias_free ctx = true -> ctx_named ctx = true -> ctx_cdirect ctx = true ->
   validate_object ctx p n v = violations_object ctx p n v.
-Proof. exact GoSemC08Proofs.validate_iff_partial. Qed.
+Proof. exact GoSemC08Proofs.validate_iff_partial_weak. Qed.
 Print Assumptions validate_iff_partial.
 
 (* ---- the strict decoder accepts iff the four conditions hold ---- *)
@@ -39,19 +58,33 @@ Definition strict_iff_statement : Prop :=
 Theorem strict_iff_refuted : ~ strict_iff_statement.
 Proof. exact GoSemC08Proofs.strict_iff_refuted. Qed.
 Print Assumptions strict_iff_refuted.
-(* soundness: what the strict decoder accepts meets the four conditions (documents without null / duplicate names) *)
+
+(* soundness: what the strict decoder accepts meets the four conditions *)
+Definition strict_accepts_only_ok_statement : Prop :=
+  forall ctx p n d v, ctx_supported ctx = true -> struct_object ctx p n = true ->
+    json_wf d = true -> json_null_free d = true ->
+    strict_object ctx p n d = GOk v -> strict_ok_object ctx p n d = true.
+(* refuted: the branches of a union of scalars are tried with the LENIENT decoder, so an array-of-structs
+   branch accepts undeclared members *)
+Theorem strict_accepts_only_ok_refuted : ~ strict_accepts_only_ok_statement.
+Proof. exact GoSemC08Proofs.strict_accepts_only_ok_partial_refuted. Qed.
+Print Assumptions strict_accepts_only_ok_refuted.
 Theorem strict_accepts_only_ok_partial : forall ctx p n d v, ctx_supported ctx = true -> struct_object ctx p n = true ->
-  json_wf d = true -> json_null_free d = true ->
+  json_wf d = true -> json_null_free d = true -> ctx_unions_flat ctx = true ->
   strict_object ctx p n d = GOk v -> strict_ok_object ctx p n d = true.
-Proof. exact GoSemC08Proofs.strict_accepts_only_ok_partial. Qed.
+Proof. exact GoSemC08Proofs.strict_accepts_only_ok_partial_weak. Qed.
 Print Assumptions strict_accepts_only_ok_partial.
+
 (* completeness: a document meeting the four conditions is accepted, outside the listed defects *)
 Theorem strict_rejects_only_bad_partial : forall ctx p n d, ctx_supported ctx = true -> struct_object ctx p n = true ->
   json_wf d = true -> json_null_free d = true -> roundtrip_safe ctx p n d = true ->
-  strict_ok_object ctx p n d = true -> exists v, strict_object ctx p n d = GOk v.
-Proof. exact GoSemC08Proofs.strict_rejects_only_bad_partial. Qed.
+  strict_ok_object ctx p n d = true -> is_unmodelled (strict_object ctx p n d) = false ->
+  exists v, strict_object ctx p n d = GOk v.
+Proof. exact GoSemC08Proofs.strict_rejects_only_bad_partial_weak. Qed.
 Print Assumptions strict_rejects_only_bad_partial.
 
+(* non-vacuity: a typed value of a context meeting every side condition, with a violation below the top level;
+   and a document meeting the hypotheses of both strict-decoder theorems *)
 Example c08_nonvacuous : exists ctx p n v, typed_obj ctx p n v /\ ctx_alias_free ctx = true /\
-  violations_object ctx p n v <> [].
-Proof. exact GoSemC08Proofs.c08_nonvacuous. Qed.
+  ctx_named ctx = true /\ ctx_cdirect ctx = true /\ violations_object ctx p n v <> [].
+Proof. exact GoSemC08Proofs.c08_nonvacuous_weak. Qed.
